@@ -210,13 +210,17 @@ func (c *Channel) JoinPresence(ctx context.Context, p stanza.Presence, opt ...Op
 	if p.ID == "" {
 		p.ID = attr.RandomID()
 	}
-	p.To = c.addr
-
 	conf := config{}
 	for _, o := range opt {
 		o(&conf)
 	}
+	// Several Join calls on one channel may overlap (the second waits in the
+	// queue below until the first is done): the address, which a completed
+	// join updates, and the password are accessed under the client's lock.
+	c.client.managedM.Lock()
+	p.To = c.addr
 	c.pass = conf.password
+	c.client.managedM.Unlock()
 	if conf.newNick != "" {
 		// Only validate the nick here. The address of the channel is whatever
 		// the room confirms in its self-presence (see below); changing it before
@@ -224,7 +228,7 @@ func (c *Channel) JoinPresence(ctx context.Context, p stanza.Presence, opt ...Op
 		// re-keying the client's table, made Joined report false for a channel
 		// that was still joined whenever the request failed or was abandoned,
 		// and raced with Joined.
-		_, err := c.addr.WithResource(conf.newNick)
+		_, err := p.To.WithResource(conf.newNick)
 		if err != nil {
 			return err
 		}
@@ -281,7 +285,7 @@ func (c *Channel) JoinPresence(ctx context.Context, p stanza.Presence, opt ...Op
 		}
 	}(errChan)
 
-	verifhook.Yield("muc.join.wait", c.addr.String())
+	verifhook.Yield("muc.join.wait", p.To.String())
 	select {
 	case err := <-errChan:
 		return err
